@@ -456,8 +456,10 @@ impl HierarchicalKeyDerivation {
             current_chaincode = new_chaincode;
         }
 
-        // Derive ML-DSA key material deterministically
-        let mut derived = vec![0u8; ML_DSA_PUB_LEN + ML_DSA_SEC_LEN];
+        // Derive the 32-byte ML-DSA key-generation seed deterministically; FIPS 204 deterministic
+        // KeyGen then yields a matching public/secret pair
+        use saorsa_pqc::dsa_traits::{KeyGen, SerDes};
+        let mut derived = [0u8; 32];
         HkdfSha3_256::derive(
             &current_key,
             Some(&current_chaincode),
@@ -469,8 +471,9 @@ impl HierarchicalKeyDerivation {
                 "HKDF derivation failed".to_string().into(),
             ))
         })?;
-        let pub_bytes = &derived[..ML_DSA_PUB_LEN];
-        let sec_bytes = &derived[ML_DSA_PUB_LEN..];
+        let (pk, sk) = saorsa_pqc::ml_dsa_65::KG::keygen_from_seed(&derived);
+        let (pk, sk): ([u8; ML_DSA_PUB_LEN], [u8; ML_DSA_SEC_LEN]) = (pk.into_bytes(), sk.into_bytes());
+        let (pub_bytes, sec_bytes) = (&pk[..], &sk[..]);
         let public_key = MlDsaPublicKey::from_bytes(pub_bytes).map_err(|e| {
             P2PError::Security(SecurityError::InvalidKey(
                 format!("Invalid ML-DSA public key: {e}").into(),
